@@ -196,6 +196,10 @@ pub fn murmur3_preimage(prefix: &[u8], target: u64, free: u64) -> Vec<u8> {
     key
 }
 
+pub(crate) fn pattern_bytes_pub(len: usize, b: u8) -> Vec<u8> {
+    pattern_bytes(len, b)
+}
+
 fn pattern_bytes(len: usize, b: u8) -> Vec<u8> {
     (0..len).map(|i| ((b as usize + 7 * i) % 256) as u8).collect()
 }
@@ -668,6 +672,9 @@ pub fn generate(rng: &mut Rng, tier: Tier, emit: &mut dyn FnMut(String)) {
         emit(format!("ptoken {} {}", rng.chance(1, 10) as u8, vals.join(" ")));
     }
     emit("ptoken 0".to_owned());
+
+    // session level: Session::prepare / ClusterState::compute_token against the mock cluster, compared with the model
+    crate::e2e::partitioner::generate_sesspart(rng, tier, emit);
 }
 
 // ------------------------------------------------------------------------------------------------
@@ -927,6 +934,7 @@ pub fn run(case: &str, ctx: &mut Ctx) -> String {
                 Err(n) => format!("err tooLong {}", n),
             }
         }
+        ("sesspart", _) => crate::e2e::partitioner::run(&w[1..], ctx),
         ("svnth", n) if n >= 2 => {
             let Some(ks) = parse_lens(w[1]) else { return "bad-case".into() };
             let Some(vals) = w[2..].iter().map(|s| parse_val(s)).collect::<Option<Vec<Val>>>() else {
@@ -965,7 +973,10 @@ pub fn run(case: &str, ctx: &mut Ctx) -> String {
                 }
                 out.push(shown);
             }
-            out.join(" ")
+            // the serialized buffer itself, as `write_to_request` emits it: u16 count, then the cells
+            let mut raw = Vec::new();
+            sv.write_to_request(&mut raw);
+            format!("{} buf={}", out.join(" "), hex(&raw))
         }
         ("pname", 2) => {
             let name: Option<String> = if w[1] == "N" {
